@@ -17,12 +17,18 @@ The model mirrors the code *with the proposed fixes applied* (fixes/C14-*.diff):
 set, `LabelRows` normalises a negative dense index.  On the unchanged tree these inputs are
 reported as known findings and excluded from the correspondence.
 -/
+import CobaVerif.Model.C12
+import CobaVerif.Model.C09
+
 namespace Coba.C14
 
 inductive Err
   | typeError | indexError | zeroDivision
   /-- the input is outside what this model describes (e.g. label type `m` with a scalar label) -/
   | outOfModel
+  /-- a reader (C12 model) or the reservoir (C09 model) failed; the harness sees the reader's own exception -/
+  | upstream
+  | keyError | valueError
 deriving DecidableEq, Repr
 
 /-- a label atom -/
@@ -176,6 +182,27 @@ def flattenM : List Label → Except Err (List Val)
     | .ok r => .ok (vs ++ r)
   | _ :: _ => .error .outOfModel
 
+/-- a label as member of `set(labels)`: a list is unhashable (`TypeError`) -/
+def labelKey : Label → Except Err Val
+  | .atom v => .ok v
+  | .cat s _ => .ok (.str s)
+  | .list _ => .error .typeError
+
+def labelKeys {χ : Type} : List (χ × Label) → Except Err (List Val)
+  | [] => .ok []
+  | (_, l) :: rest =>
+    match labelKey l with
+    | .error e => .error e
+    | .ok v =>
+      match labelKeys rest with
+      | .error e => .error e
+      | .ok r => .ok (v :: r)
+
+/-- the `Categorical` branch (with fixes/C14-categorical-unused-levels.diff): the declared levels
+in declared order, without the levels no example carries -/
+def catActions (levels : List String) (keys : List Val) : List Val :=
+  (levels.filter (fun l => keys.contains (.str l))).map Val.str
+
 def read {χ : Type} (given : Option LType) (rows : List (χ × Label)) : Except Err (List (Interaction χ)) :=
   match rows with
   | [] => .ok []
@@ -184,7 +211,10 @@ def read {χ : Type} (given : Option LType) (rows : List (χ × Label)) : Except
     | .r => .ok (rows.map fun r => ⟨r.1, [], .l1 r.2⟩)
     | .c =>
       match first with
-      | .cat _ levels => .ok (rows.map fun r => ⟨r.1, levels.map Val.str, .binary r.2⟩)
+      | .cat _ levels =>
+        match labelKeys rows with
+        | .error e => .error e
+        | .ok keys => .ok (rows.map fun r => ⟨r.1, catActions levels keys, .binary r.2⟩)
       | _ =>
         match delistAll rows with
         | .error e => .error e
@@ -265,6 +295,159 @@ def simDense (given : Option LType) (take : Option (List Nat)) (ind : Int) (rows
 def simSparse (given : Option LType) (take : Option (List Nat)) (key : Val) (rows : List (List (Val × Label))) :
     Except Err (List (Interaction (List (Val × Label)))) :=
   read given ((applyTake take rows).map (splitSparse key (Label.atom (.num 0))))
+
+/-! ### `take` with the reservoir of the C09 model (seed 1 = the default of `Reservoir`) -/
+
+/-- `Reservoir(k).filter(rows)`: Algorithm L of `Model/C09` from the generator state of
+`CobaRandom(1)`; `steps` are the float quantities (skip count, slot) of its loop iterations -/
+def sampleRows {ρ : Type} (k : Nat) (steps : List C09.Step) (rows : List ρ) : Except Err (List ρ) :=
+  match C09.reservoir (some k) false (C05.normInt 1) steps rows with
+  | .ok s => .ok s
+  | .error _ => .error .upstream
+
+def simPairsS {χ : Type} (given : Option LType) (k : Nat) (steps : List C09.Step) (rows : List (χ × Label)) :
+    Except Err (List (Interaction χ)) :=
+  match sampleRows k steps rows with
+  | .error e => .error e
+  | .ok s => read given s
+
+def simDenseS (given : Option LType) (k : Nat) (steps : List C09.Step) (ind : Int) (rows : List (List Label)) :
+    Except Err (List (Interaction (List Label))) :=
+  match sampleRows k steps rows with
+  | .error e => .error e
+  | .ok s => simDense given none ind s
+
+def simSparseS (given : Option LType) (k : Nat) (steps : List C09.Step) (key : Val) (rows : List (List (Val × Label))) :
+    Except Err (List (Interaction (List (Val × Label)))) :=
+  match sampleRows k steps rows with
+  | .error e => .error e
+  | .ok s => simSparse given none key s
+
+/-! ### end to end: text → reader (C12 model) → LabelRows → read -/
+
+open C12 (Text)
+
+/-- a Python `str` given by its code points -/
+def textStr (t : Text) : String := String.ofList (t.map Char.ofNat)
+
+def textLabel (t : Text) : Label := .atom (.str (textStr t))
+
+/-- `HeadRows(first)`: `dict(zip(headers, count()))` — a repeated header name maps to its last position -/
+def headerIndex (hdr : List Text) (name : Text) : Option Nat :=
+  match (hdr.reverse.idxOf? name) with
+  | none => none
+  | some j => some (hdr.length - 1 - j)
+
+/-- `label_col`: an index, or a header name -/
+inductive LabelCol
+  | index (i : Int)
+  | name (t : Text)
+
+/-- `SupervisedSimulation(CsvSource(lines, has_header, delimiter=delim), label_col, label_type)` -/
+def csvSim (delim : Nat) (hasHeader : Bool) (lc : LabelCol) (given : Option LType) (lines : List Text) :
+    Except Err (List (Interaction (List Label))) :=
+  match C12.csvReaderFix (C12.excel delim) hasHeader lines with
+  | .error _ => .error .upstream
+  | .ok (hdr, rows) =>
+    let table := rows.map (·.map textLabel)
+    match lc with
+    | .index i => simDense given none i table
+    | .name nm =>
+      match rows with
+      | [] => .ok []
+      | _ :: _ =>
+        match hdr with
+        | none => .error .typeError          -- a list row has no `.headers`
+        | some h =>
+          match headerIndex h nm with
+          | none => .error .keyError
+          | some i => simDense given none (i : Int) table
+
+/-- a LibSVM row as the pair `SupervisedSimulation` receives: the features stay tokens (`int`/`float`
+of a token is CPython's), the label is the list of label strings -/
+def svmPair (r : C12.SvmRow) : List (Text × Text) × Label := (r.feats, .list (r.labels.map fun l => Val.str (textStr l)))
+
+/-- `SupervisedSimulation(LibSvmSource(lines), None, label_type)` -/
+def libsvmSim (given : Option LType) (lines : List Text) : Except Err (List (Interaction (List (Text × Text)))) :=
+  match C12.libsvmRead lines with
+  | .error _ => .error .upstream
+  | .ok rows => read given (rows.map svmPair)
+
+/-- `SupervisedSimulation(ManikSource(lines), None, label_type)` -/
+def manikSim (given : Option LType) (lines : List Text) : Except Err (List (Interaction (List (Text × Text)))) :=
+  match C12.manikRead lines with
+  | .error _ => .error .upstream
+  | .ok rows => read given (rows.map svmPair)
+
+/-- a decimal literal `[-]digits[.digits]` as the number `float(tok)` denotes when it is exactly
+representable (the harness writes small integers and dyadic fractions); other literals: `none` -/
+def parseDecimal (tok : Text) : Option Rat :=
+  let (neg, body) := match tok with
+    | 45 :: r => (true, r)
+    | r => (false, r)
+  let ip := body.takeWhile C12.isDigit
+  let rest := body.dropWhile C12.isDigit
+  let mk (n : Nat) (d : Nat) : Rat := (if neg then -(n : Rat) else (n : Rat)) / (d : Rat)
+  match rest with
+  | [] => if ip = [] then none else some (mk (C12.digitsVal ip).toNat 1)
+  | 46 :: fp =>
+    if (ip = [] ∧ fp = []) ∨ !(fp.all C12.isDigit) then none
+    else some (mk ((C12.digitsVal (ip ++ fp)).toNat) (10 ^ fp.length))
+  | _ => none
+
+/-- an ARFF cell as a label-shaped value; a missing value or an inexact literal is outside the model -/
+def cellLabel : C12.Cell → Except Err Label
+  | .num tok => match parseDecimal tok with | some q => .ok (.atom (.num q)) | none => .error .outOfModel
+  | .str s => .ok (textLabel s)
+  | .cat s levels => .ok (.cat (textStr s) (levels.map textStr))
+  | .missing => .error .outOfModel
+
+def cellLabels : List C12.Cell → Except Err (List Label)
+  | [] => .ok []
+  | c :: cs =>
+    match cellLabel c with
+    | .error e => .error e
+    | .ok l => match cellLabels cs with | .error e => .error e | .ok r => .ok (l :: r)
+
+def rowsLabels : List (List C12.Cell) → Except Err (List (List Label))
+  | [] => .ok []
+  | r :: rs =>
+    match cellLabels r with
+    | .error e => .error e
+    | .ok l => match rowsLabels rs with | .error e => .error e | .ok t => .ok (l :: t)
+
+def encodeRows (encs : List C12.Enc) : List (List Text) → Except Err (List (List C12.Cell))
+  | [] => .ok []
+  | r :: rs =>
+    match C12.encodeRow encs r with
+    | .error _ => .error .upstream
+    | .ok c => match encodeRows encs rs with | .error e => .error e | .ok t => .ok (c :: t)
+
+/-- dense ARFF, the reader's simple path: attribute lines → names and encoders (`ArffAttrReader`),
+data lines → raw rows (`ArffLineReader`), encoders applied, then `LabelRows` and `read` -/
+def arffDenseSim (lc : LabelCol) (given : Option LType) (attrLines dataLines : List Text) :
+    Except Err (List (Interaction (List Label))) :=
+  match C12.arffAttrs true [] attrLines with
+  | .error _ => .error .upstream
+  | .ok attrs =>
+    match C12.arffLines attrs.length C12.ALR.init dataLines with
+    | .error _ => .error .upstream
+    | .ok raws =>
+      match encodeRows (attrs.map (·.2)) raws with
+      | .error e => .error e
+      | .ok cells =>
+        match rowsLabels cells with
+        | .error e => .error e
+        | .ok table =>
+          match lc with
+          | .index i => simDense given none i table
+          | .name nm =>
+            match table with
+            | [] => .ok []
+            | _ :: _ =>
+              match headerIndex (attrs.map (·.1)) nm with
+              | none => .error .keyError
+              | some i => simDense given none (i : Int) table
 
 /-! ### vocabulary used by the property statements -/
 
